@@ -308,6 +308,65 @@ def deep_session(seed):
     return s.ops
 
 
+def queue_full_session(seed):
+    """C01 / C02 / C03 / C16: the packet of one reliable bunch is lost again and again while the sender (which keeps at most 255 bunches
+    unacknowledged: `ifroom`) goes on, so the receiver's out-of-order queue fills up to its bound (255) and the next bunches of the
+    channel are REFUSED (their packets must not be acknowledged, the bunches must come again later).  The refused bunches travel alone
+    or together with a bunch of another kind behind them in the same datagram (partial fragments, plain bunches, other channels)."""
+    rng = random.Random(seed)
+    s = Session(rng)
+    s.op("reset")
+    s.op("conn 1")
+    s.op("conn 2")
+    a_out, b_out = seq_choice(rng), seq_choice(rng)
+    s.op("seqinit 1 %d %d" % (b_out, a_out))
+    s.op("seqinit 2 %d %d" % (a_out, b_out))
+    s.note("peers 1 2")
+    ch = rng.choice([1, 3, 64])
+    other = ch + 1
+    s.op("send 1 %d 9 0 1 8 %d" % (ch, s.next_pseed()))
+    s.op("send 1 %d 9 0 1 8 %d" % (other, s.next_pseed()))
+    drain(s, 1, 2, rounds=1)
+    # the victim
+    s.op("send 1 %d 8 0 0 %d %d" % (ch, rng.choice([8, 100]), s.next_pseed()))
+    s.op("flush 1")
+    s.op("drop 1")
+    extra = rng.randint(1, 6)
+    trailer = rng.choice(["upart", "rpart-other", "rpart-same", "upart", "plain", "ufinal-orphan", "none", "rpart-other", "upart", "rpart-same"])
+    for k in range(255 + extra):
+        s.op("ifroom 1 %d send 1 %d 8 0 0 %d %d" % (ch, ch, rng.choice([0, 1, 8]), s.next_pseed()))
+        if k >= 254 and trailer != "none":
+            if trailer == "plain":
+                s.op("send 1 %d 0 0 0 8 %d" % (other, s.next_pseed()))
+            elif trailer == "upart":
+                s.op("send 1 %d 192 0 0 16 %d" % (other, s.next_pseed()))          # unreliable partial initial
+                s.op("send 1 %d 320 0 0 16 %d" % (other, s.next_pseed()))          # ... and final
+            elif trailer == "rpart-other":
+                s.op("send 1 %d 200 0 0 16 %d" % (other, s.next_pseed()))          # reliable partial initial
+                s.op("send 1 %d 328 0 0 16 %d" % (other, s.next_pseed()))
+            elif trailer == "ufinal-orphan":
+                s.op("send 1 %d 320 0 0 16 %d" % (other, s.next_pseed()))          # final fragment without an initial one: refused itself
+            elif trailer == "rpart-same":
+                s.op("ifroom 1 %d send 1 %d 200 0 0 16 %d" % (ch, ch, s.next_pseed()))
+                s.op("ifroom 1 %d send 1 %d 328 0 0 16 %d" % (ch, ch, s.next_pseed()))
+        s.op("flush 1")
+        s.op("dln 2 1")
+        if k % 12 == 11 or k >= 254:
+            s.op("tick 250000000")
+            s.op("flush 2")
+            s.op("dla 1 2")
+            s.op("flush 1")          # what the NAKs made the sender re-send: lost again
+            s.op("drop 1")
+    s.op("chans 2")
+    s.note("drain")
+    drain(s, 1, 2, rounds=rng.choice([10, 14]))
+    s.note("drained")
+    s.op("nodes")
+    s.op("chans 1")
+    s.op("chans 2")
+    return s.ops
+
+
 def wrap_partial_session(seed):
     """C03 / C13: unreliable (and reliable) partial groups whose fragments travel in consecutive packets on either side of the 14-bit
     packet-sequence wrap and of the 10-bit channel-sequence wrap; no loss, so every group must be delivered"""
